@@ -73,6 +73,65 @@ def values_of(kind, n, rng, name):
 KINDS = ['int', 'float', 'Fraction', 'ndarray', 'sympy', 'mixed']
 
 
+def registered_pass(ctx, rec):
+    """registered functions (both compilation routes, 1-3 arguments, two different functions with the same __name__,
+    with and without a wrapper): the first call per key pattern generates, every later call with that pattern - other
+    coefficient values and types, other registered functions called in between - is event-free"""
+    from kingdon import MultiVector
+    rng = ctx.rng
+
+    def make_pair(k):
+        def comb(x, y):
+            return x * y + k * (x | y)
+        return comb
+    for sig, use_wrapper in (([1, 1, 1], False), ([0, 1, 1], True)):
+        for symbolic in (False, True):
+            alg = make_algebra(sig, **({'wrapper': rec.wrapper} if use_wrapper else {}))
+            kw = {'symbolic': True} if symbolic else {}
+            @alg.register(**kw)
+            def unary_f(x):
+                return x * x + x
+            @alg.register(**kw)
+            def binary_f(x, y):
+                return (x * y) - (y ^ x)
+            @alg.register(**kw)
+            def ternary_f(x, y, z):
+                return x * y * z + z
+            same_a = alg.register(make_pair(1), **kw)
+            same_b = alg.register(make_pair(2), **kw)
+            funcs = [('unary_f', unary_f, 1), ('binary_f', binary_f, 2), ('ternary_f', ternary_f, 3), ('comb#1', same_a, 2), ('comb#2', same_b, 2)]
+            pats = [[1, 2], [0, 3], [1, 2, 4], [4, 2]]
+            hist = []
+            for nm, f, ar in funcs:
+                for _ in range(2):
+                    kss = tuple(tuple(rng.choice(pats)) for _ in range(ar))
+                    for kind in rng.sample(['int', 'float', 'Fraction', 'ndarray'] + ([] if symbolic else []), 3):
+                        hist.append((nm, f, kss, kind))
+            # same-named functions in strict alternation on one pattern
+            kss = ((1, 2), (2, 4))
+            for i in range(6):
+                hist.append(('comb#1', same_a, kss, 'int') if i % 2 == 0 else ('comb#2', same_b, kss, 'float'))
+            head, tail = hist[:-6], hist[-6:]
+            rng.shuffle(head)
+            seen = set()
+            for nm, f, kss, kind in head + tail:
+                mvs = [MultiVector.fromkeysvalues(alg, k, values_of(kind, len(k), rng, 'abc'[i])) for i, k in enumerate(kss)]
+                before = len(rec.events)
+                raised = None
+                try:
+                    f(*mvs)
+                except Exception as e:
+                    raised = type(e).__name__
+                new = rec.events[before:]
+                case = {'sig': sig, 'wrapper': use_wrapper, 'symbolic_route': symbolic, 'function': nm, 'keys': [list(k) for k in kss], 'values': kind, 'raised': raised}
+                first = (nm, kss) not in seen
+                seen.add((nm, kss))
+                ctx.case(case, tag=('registered-first' if first else 'registered-repeat') + (':symbolic' if symbolic else ':tape'))
+                if not first and new:
+                    ctx.violation('regenerated', case, 'no generation/compile/wrap event for a cached pattern of a registered function',
+                                  [list(map(str, e))[:3] for e in new[:6]], key=f'regenerated:registered:{"symbolic" if symbolic else "tape"}:{new[0][0]}')
+
+
 def run(ctx):
     ctx.rule = ('sequential call histories on one long-lived algebra (with and without a counting wrapper): operators (string-path, '
                 'sympy-path composite, unary) x small ordered key patterns incl. permutations and identically-zero results, every '
@@ -175,6 +234,7 @@ def run(ctx):
             plan.append(({'sig': sig, 'wrapper': use_wrapper, 'calls': len(toks)}, ' '.join(expect)))
             ctx.count('events', len(all_events))
             ctx.count('histories')
+        registered_pass(ctx, rec)
     finally:
         rec.uninstall()
     out = ctx.drive(lines)
